@@ -53,11 +53,19 @@ def overlapped(trace):
     return False
 
 
-def claim_oracle(trace, what):
+def claim_oracle(trace, what, release_ev=None):
+    """G = the client whose granted claim has returned to it, until the component has executed
+    its release (the forwarded release call - the selector deselects only afterwards, so on the
+    unchanged code no out-event raised in that window can miss G).  Without `release_ev` the
+    window already ends when the client invokes release."""
     holder = None
     expecting = None
     delivered = []
     for t in trace:
+        if t.get('k') == 'h' and release_ev is not None and t['side'] == 'comp' and \
+                t['ev'] == release_ev and t['dir'] == 'in':
+            holder = None  # the component executed the holder's release
+            continue
         if t.get('k') != 't':
             continue
         w, who = t['what'], t['who']
@@ -66,12 +74,11 @@ def claim_oracle(trace, what):
                 raise Fail(f'{what}: two clients hold a granted claim ({holder}, {who}) - harness '
                            f'arbiter not honest?', 'harness-arbiter')
             holder = who
-        elif w == 'release-call' and holder == who:
+        elif w == 'release-call' and holder == who and release_ev is None:
             holder = None
         elif w == 'raise-begin':
             expecting = holder
             delivered = []
-            in_raise = True
         elif w == 'deliver':
             delivered.append(who)
         elif w == 'raise-end':
@@ -96,6 +103,7 @@ class Rig:
         except Exception as exc:  # pylint: disable=broad-except
             raise Fail(f'valid multi-client configuration rejected: {exc}', 'rejected') from None
         self.pr.write('sched_main.cc', sched_driver.generate(self.pr.info))
+        self.release_ev = case['spec']['mc']['release']
         shell_cc = driver.shell_name(case['spec']) + '.cc'
         try:
             with ThreadPoolExecutor(max_workers=2) as ex:
@@ -141,7 +149,7 @@ def judge_sched(rig, schedule, programs, ctx_counts):
         raise Fail(f'{what}: structural deadlock - unfinished actors, none runnable: {dl}', 'deadlock')
     if rc != 0 or not any(t.get('what') == 'end' for t in trace):
         raise Fail(f'{what}: run did not terminate normally (exit {rc}): {err[:500]}', f'crash:{rc}')
-    claim_oracle(trace, what)
+    claim_oracle(trace, what, rig.release_ev)
     dec = [t for t in trace if t.get('k') == 'decisions']
     return trace, (dec[0]['d'].split() if dec else [])
 
@@ -314,7 +322,7 @@ def judge_free(rig, pert, programs):
         raise Fail(f'{what}: ThreadSanitizer report: {err[:2500]}', f'tsan:{kind}')
     if rc != 0 or not any(t.get('what') == 'end' for t in trace):
         raise Fail(f'{what}: exit {rc}: {err[:500]}', f'free-crash:{rc}')
-    claim_oracle(trace, what)
+    claim_oracle(trace, what, rig.release_ev)
     return trace
 
 
@@ -378,8 +386,9 @@ def run(ctx):
 
         # ---- E2 (ii): sampled programs and schedules
         ctx.clauses_run.append('sampled_schedules')
-        n = 1500 if quick else 100000
-        samples = draw_cases(st.tuples(program, st.one_of(dense, dense, sparse)), n, ctx.seed + 1)
+        n = 1000 if quick else 100000
+        samples = draw_cases(st.tuples(program, st.one_of(dense, dense, sparse)), n, ctx.seed + 1,
+                             oversample=1)
         for ri, rig in enumerate(rigs):
             mh = case_hash([rig.case['sm']['model'], rig.case['spec']])
             mine = samples[ri::len(rigs)]
@@ -401,8 +410,8 @@ def run(ctx):
 
         # ---- E1: free-running under ThreadSanitizer
         ctx.clauses_run.append('free_tsan')
-        n = 100 if quick else 4000
-        samples = draw_cases(st.tuples(program, perturb), n, ctx.seed + 2)
+        n = 60 if quick else 4000
+        samples = draw_cases(st.tuples(program, perturb), n, ctx.seed + 2, oversample=1)
         for ri, rig in enumerate(rigs):
             mh = case_hash([rig.case['sm']['model'], rig.case['spec']])
 
@@ -426,7 +435,7 @@ def run(ctx):
         try:
             build_mutex_test(md)
             cases = [{'engine': 'mutex', 'threads': t} for t in
-                     draw_cases(mutex_ops, 150 if quick else 4000, ctx.seed + 3)]
+                     draw_cases(mutex_ops, 150 if quick else 4000, ctx.seed + 3, oversample=1)]
 
             def job3(case):
                 try:
